@@ -13,6 +13,8 @@ import (
 	"testing/cryptotest"
 	"testing/synctest"
 	"time"
+
+	"github.com/jimlambrt/gldap/simrt"
 )
 
 // WorkerCfg is passed by cmd/verif in VERIF_WORKER (JSON).
@@ -77,6 +79,8 @@ func runSeed(seed uint64, i int) uint64 {
 }
 
 var progress atomic.Int64
+
+const simrtRace = simrt.RaceBuild
 
 func TestWorker(t *testing.T) {
 	raw := os.Getenv("VERIF_WORKER")
@@ -146,9 +150,25 @@ func TestWorker(t *testing.T) {
 			break
 		}
 		emit(&RunResult{Type: "start", I: i})
+		if simrtRace {
+			fmt.Fprintf(os.Stderr, "\n@@RUN %d\n", i)
+		}
 		rs := runSeed(cfg.Seed, i)
 		verbose := cfg.Verbose || k < cfg.Samples
-		res, st := runOne(t, &cfg, rs, verbose, i)
+		// each run gets its own goroutine: if the testing package ends the
+		// synctest sub-test with Goexit (it does after a race report), only
+		// that goroutine goes
+		var res *RunResult
+		var st *runStats
+		done := make(chan struct{})
+		go func() {
+			defer close(done)
+			res, st = runOne(t, &cfg, rs, verbose, i)
+		}()
+		<-done
+		if res == nil {
+			res = &RunResult{Type: "run"}
+		}
 		res.I, res.RunSeed = i, rs
 		progress.Add(1)
 		sum.Runs++
